@@ -149,7 +149,24 @@ def gen_late(rng, tier):
                'style': 'late-state', 'alpha': akind}
 
 
+def gen_narrow(rng, tier):
+    # micro trajectories in a narrow (un)signed type with contiguous labels, macro labels outside that type
+    for _ in range(G.budget(10) if tier == 'quick' else 300):
+        k = rng.randint(3, 6)
+        base = rng.choice([0, 0, 1, 5])
+        labs = list(range(base, base + k))
+        t = chain(rng, labs, rng.randint(60 * k, 120 * k))
+        present = sorted(set(t))
+        nm = rng.randint(2, len(present))
+        mlabs = rng.sample([-1, -7, 300, 129, 256, 70000, 3, 4], nm)
+        f = lump(rng, present, nm, mlabs)
+        yield {'macro': [[f[v] for v in t]], 'micro': [t], 'pos': rng.random() < 0.5, 'lag': rng.choice([1, 2]),
+               'style': 'narrow-micro', 'alpha': 'index', 'mdtype': rng.choice(['uint8', 'int8', 'int16', 'uint16'])}
+
+
 def gen(rng, tier):
+    for case in gen_narrow(rng, tier):
+        yield case
     for case in gen_late(rng, tier):
         yield case
     for case in _gen0(rng, tier):
@@ -177,7 +194,7 @@ def impl(case):
     import msmhelper as mh
     from implutil import canon
     macro = [np.array(t) for t in case['macro']]
-    micro = [np.array(t) for t in case['micro']]
+    micro = [np.array(t, dtype=case.get('mdtype') or np.int64) for t in case['micro']]
     lt = mh.LumpedStateTraj(macro, micro, positive=case['pos'])
     # history on the SAME object: estimates at other lag times first (whatever they answer), and the
     # caller overwrites arrays the object handed out; the estimate at the requested lag must not care
